@@ -22,6 +22,8 @@ type LedgerView struct {
 	Txs      map[string][]TxRow           // entry hash (hex) -> transaction rows ordered by tx_index
 	Bank     map[uint32][3]int64          // height -> amount, used, requested
 	Synced   uint32
+	// Corrupt lists balances that are not non-negative 64-bit integers (they read as 2^64-1 in Balances)
+	Corrupt []string
 }
 
 type BatchRow struct {
@@ -68,10 +70,10 @@ func ReadLedger(dbfile string) (*LedgerView, error) {
 	}
 	for rows.Next() {
 		var addr []byte
-		vals := make([]uint64, len(tick))
+		raw := make([]interface{}, len(tick))
 		ptrs := []interface{}{&addr}
-		for i := range vals {
-			ptrs = append(ptrs, &vals[i])
+		for i := range raw {
+			ptrs = append(ptrs, &raw[i])
 		}
 		if err := rows.Scan(ptrs...); err != nil {
 			rows.Close()
@@ -79,8 +81,19 @@ func ReadLedger(dbfile string) (*LedgerView, error) {
 		}
 		m := map[string]uint64{}
 		for i, t := range tick {
-			if vals[i] != 0 {
-				m[t] = vals[i]
+			switch x := raw[i].(type) {
+			case int64:
+				if x > 0 {
+					m[t] = uint64(x)
+				} else if x < 0 {
+					m[t] = ^uint64(0) // a negative balance: never equal to any reference value
+					v.Corrupt = append(v.Corrupt, fmt.Sprintf("%x %s = %d", addr, t, x))
+				}
+			case nil:
+			default:
+				// SQLite turned the integer into a REAL (overflow past 2^63) or something else that is not an integer
+				m[t] = ^uint64(0)
+				v.Corrupt = append(v.Corrupt, fmt.Sprintf("%x %s = %v (%T)", addr, t, x, x))
 			}
 		}
 		v.Balances[hex.EncodeToString(addr)] = m
